@@ -201,3 +201,78 @@ Proof.
   - destruct l; try congruence; unfold_steps H; step_split H; inv_some; subst;
     repeat match goal with w : writer |- _ => destruct w; cbn in * end; subst; cbn; eauto; congruence.
 Qed.
+
+(* ---------- fault_reaches_peer ---------- *)
+Lemma run_reachable : forall p ls st st', reachable p st -> run p st ls = Some st' -> reachable p st'.
+Proof.
+  induction ls; intros st st' R H; cbn in H.
+  - injection H as H. subst. auto.
+  - destruct (step p st a) eqn:E; try discriminate. eapply IHls; [|eauto]. econstructor; eauto.
+Qed.
+
+(* sender: the walker is on its way to SendMsg(ERR) *)
+Definition err_path_s (st : state) : Prop := sw_pc st = SW_Lock KErr \/ sw_pc st = SW_Send KErr.
+(* receiver: the first goroutine of receiver.run is on its way to SendMsg(ERR) *)
+Definition err_path_r (st : state) : Prop :=
+  (do_pc st = DO_WaitDiff /\ d_err st = true) \/ do_pc st = DO_LockErr \/ do_pc st = DO_SendErr.
+
+Lemma fault_reaches_peer_sender : forall p st,
+  (* a walk error (or the walker seeing its context cancelled, or a failed SendMsg(STAT)) puts
+     the walker on the error path ... *)
+  (forall st', step p st LSWalkErr = Some st' -> err_path_s st') /\
+  (sw_pc st = SW_Next -> s_cancel st = true -> forall st', step p st LSWalk = Some st' -> err_path_s st') /\
+  (forall k, sw_pc st = SW_Send k -> s_broken st = true -> forall st', step p st LSWalk = Some st' ->
+     err_path_s st' \/ k = KErr) /\
+  (* ... on which its only move is LSWalk, no other label changes its pc, and the move is either
+     taking the mutex or completing SendMsg(ERR): the ERR packet is appended to the stream
+     unless this endpoint has failed. *)
+  (err_path_s st ->
+     step p st LSWalkErr = None /\
+     (forall l st', step p st l = Some st' -> l <> LSWalk -> sw_pc st' = sw_pc st) /\
+     (forall st', step p st LSWalk = Some st' ->
+        (sw_pc st = SW_Lock KErr /\ sw_pc st' = SW_Send KErr /\ buf_sr st' = buf_sr st) \/
+        (sw_pc st = SW_Send KErr /\ sw_pc st' = SW_Done /\
+         (s_broken st = false -> buf_sr st' = buf_sr st ++ [PErr])))).
+Proof.
+  intros p st. repeat split.
+  - intros st' H. unfold_steps H; step_split H; inv_some; subst; left; reflexivity.
+  - intros A B st' H. unfold_steps H. rewrite A, B in H. inv_some. subst. left. reflexivity.
+  - intros k A B st' H. unfold_steps H. rewrite A, B in H. cbn in H. destruct k; inv_some; subst; cbn;
+    [left; left; reflexivity | left; left; reflexivity | right; reflexivity].
+  - destruct H as [H|H]; unfold step, step_walker_err; rewrite H; reflexivity.
+  - intros l st' S NL. destruct l; try congruence; unfold_steps S; step_split S; inv_some; subst;
+    repeat match goal with w : writer |- _ => destruct w; cbn in * end; subst; cbn; try reflexivity;
+    destruct H; congruence.
+  - intros st' S. destruct H as [H|H]; unfold_steps S; rewrite H in S; step_split S; inv_some; subst; cbn.
+    + left. auto.
+    + right. repeat split; auto. intro; discriminate.
+    + right. repeat split; auto.
+Qed.
+
+Lemma fault_reaches_peer_receiver : forall p st, reachable p st ->
+  (* an error inside HandleChange (callback / syscall) ends the diff loop with an error while the
+     parent goroutine is still waiting for doubleWalkDiff ... *)
+  (forall st', step p st LDiffCbErr = Some st' -> err_path_r st') /\
+  (* ... from there every move of that goroutine stays on the error path or completes
+     SendMsg(ERR); no other label takes it off the path. *)
+  (err_path_r st ->
+     (forall l st', step p st l = Some st' -> l <> LDiffOuter -> err_path_r st') /\
+     (forall st', step p st LDiffOuter = Some st' ->
+        err_path_r st' \/
+        (do_pc st = DO_SendErr /\ do_pc st' = DO_Done /\
+         (r_broken st = false -> buf_rs st' = buf_rs st ++ [PErr])))).
+Proof.
+  intros p st R. pose proof (inv_reachable _ _ R) as J. destruct J as [_ _ _ J3 _ _ _].
+  destruct J3 as (B1 & _). repeat split.
+  - intros st' H. unfold_steps H; step_split H; inv_some; subst; unfold err_path_r; cbn;
+    destruct (do_pc st) eqn:D; try (destruct B1 as [_ B1]; congruence); left; auto.
+  - intros l st' S NL. unfold err_path_r in *.
+    destruct l; try congruence; unfold_steps S; step_split S; inv_some; subst;
+    repeat match goal with w : writer |- _ => destruct w; cbn in * end; subst; cbn; auto;
+    try (destruct H as [[A B]|[A|A]]; [left; auto | right; left; auto | right; right; auto]; fail).
+    destruct H as [[A B]|[A|A]]; discriminate.
+  - intros st' S. unfold err_path_r in *.
+    destruct H as [[A B]|[A|A]]; unfold_steps S; rewrite A in S; step_split S; inv_some; subst; cbn; auto;
+    try congruence.
+    all: try (right; repeat split; auto; intro; discriminate).
+Qed.
